@@ -4,4 +4,4 @@ d=$1; shift
 git -C /repo apply "$(realpath $d)/patch.diff" || exit 2
 (cd /repo && GOFLAGS=-mod=mod GOPROXY=off GOSUMDB=off go test -vet=off -count=1 ./... 2>&1 | grep -v "no test files" | tr '\n' ' '); echo
 for p in "$@"; do ./check $p quick 2>&1 | head -4; done
-git -C /repo checkout -- .
+git -C /repo checkout -- .; git -C /repo clean -fdq
